@@ -395,18 +395,9 @@ theorem Wf.fdtAdvance {s : State} {L : Held} (now : Nat) (h : Wf s L)
     (hqt : s.quiet = false) (hs : s.fdtSess = none) : Wf (Sched.fdtAdvance s now) L := by
   have h1 := Wf.fdtPop' h hs
   have hq1 : (Sched.fdtPop s).quiet = false := by rw [fdtPop_quiet, hqt]
-  unfold Sched.fdtAdvance
-  generalize Sched.fdtPop s = s1 at h1 hq1
-  unfold fdtTryStart
-  split
-  · exact h1
-  · rename_i k hk
-    split
-    · exact h1
-    · rename_i f hf
-      split
-      · exact Wf.fdtStart now h1 hq1 hk hf
-      · exact h1
+  rcases fdtAdvance_cases s now with ⟨e, _⟩ | ⟨k, f, hk, hf, _, e⟩
+  · rw [e]; exact h1
+  · rw [e]; exact Wf.fdtStart now h1 hq1 hk hf
 
 theorem updF_tick_fdts {s : State} {L : Held} (h : Wf s L) (k : Nat) : updF s.fdts k tickInfo = s.fdts := by
   unfold updF
